@@ -42,11 +42,15 @@ def parseCase (lines : List String) : Case := Id.run do
     match words ln with
     | "prog" :: "node" :: id :: kind :: rest =>
       let res := kv rest "results"
+      -- a DATA OUTPUT `d` of the activity is modelled as a declared result named `@d` (the data object `d` as a
+      -- variable `@d`): `ApplyTaskDataOutput` keeps exactly the declared outputs as `ApplyTaskResult` keeps exactly the
+      -- declared result fields, and conditions read it through `getDataObject('d')` (operand `v:@d`)
+      let outs := (commaList ((kv rest "outputs").getD "-")).map ("@" ++ ·)
       c := { c with proc := { c.proc with nodes := c.proc.nodes ++ [{
         id, kind := parseKind kind,
         ins := commaList ((kv rest "in").getD "-"), outs := commaList ((kv rest "out").getD "-"),
         dflt := kv rest "default", parent := (kv rest "parent").getD "-",
-        results := commaList (res.getD "-"), hasResults := res.isSome,
+        results := commaList (res.getD "-") ++ outs, hasResults := res.isSome || !outs.isEmpty,
         retries := ((kv rest "retries").bind parseInt?).getD 0 }] } }
     | ["prog", "flow", id, src, dst, _parent, cond] =>
       c := { c with proc := { c.proc with flows := c.proc.flows ++ [{ id, src, dst, cond := Cond.parse cond }] } }
